@@ -295,7 +295,7 @@ func (a *errAnalyzer) analyse(s *errSite) errVerdict {
 	// (py.TypeCall0/1/2, Type.CallMethod); the error only matters on the branch where the flag is true
 	okVals := map[ssa.Value]bool{}
 	if ex, ok := s.errVal.(*ssa.Extract); ok {
-		if tup, ok := ex.Tuple.Type().(*types.Tuple); ok && tup.Len() == 3 {
+		if tup, ok := ex.Tuple.Type().(*types.Tuple); ok && tup.Len() == 3 && flagFalseMeansNoError(ex.Tuple) {
 			if bt, ok := tup.At(1).Type().Underlying().(*types.Basic); ok && bt.Kind() == types.Bool {
 				if refs := ex.Tuple.Referrers(); refs != nil {
 					for _, ref := range *refs {
@@ -613,6 +613,36 @@ func (a *errAnalyzer) enter(from, to *ssa.BasicBlock, env pathEnv, visited map[*
 }
 
 // returnsParam: every Return of fn returns the given parameter as its (single) error result.
+// flagFalseMeansNoError: the (value, found, err) contract is the callee's to keep — it holds for a call whose callee
+// is known and has, on every return where the flag is the constant false, the constant nil as its error. A callee
+// that can hand back `false` together with a real error (a helper that reports "no more items" and the error of the
+// producer in one return) does not have the contract, and the error matters whatever the flag says.
+func flagFalseMeansNoError(tuple ssa.Value) bool {
+	call, ok := tuple.(*ssa.Call)
+	if !ok {
+		return false
+	}
+	callee := call.Common().StaticCallee()
+	if callee == nil || callee.Blocks == nil {
+		// dynamic or bodiless: keep the convention of the object protocol (TypeCall through an interface value)
+		return true
+	}
+	for _, b := range callee.Blocks {
+		for _, in := range b.Instrs {
+			ret, isRet := in.(*ssa.Return)
+			if !isRet || len(ret.Results) != 3 {
+				continue
+			}
+			if k, isConst := ret.Results[1].(*ssa.Const); isConst && k.Value != nil && k.Value.String() == "false" {
+				if e, isC := ret.Results[2].(*ssa.Const); !isC || !e.IsNil() {
+					return false
+				}
+			}
+		}
+	}
+	return true
+}
+
 // storesParamToErrField: the function stores its parameter p into an error-typed field (on some path).
 func storesParamToErrField(fn *ssa.Function, p *ssa.Parameter) bool {
 	for _, b := range fn.Blocks {
